@@ -68,6 +68,9 @@ pub struct Plan {
     pub script: Vec<SStep>,
     /// source keeps yielding items after its script until the environment stops it
     pub infinite: bool,
+    /// future: its first k polls panic (after parking a waker) - the caller catches the unwind and goes on
+    #[serde(default)]
+    pub panic_polls: u8,
 }
 
 #[derive(Clone, Copy, Debug, PartialEq, Eq)]
@@ -113,6 +116,7 @@ pub struct Child {
     pub polled_in_call: bool,
     pub pushed_seq: u64,
     pub epoch: u32,
+    pub panic_left: u8,
 }
 
 impl Child {
@@ -200,6 +204,7 @@ pub mod lb {
     pub const ACCEPT_AFTER_DONE: u64 = 1 << 46;
     pub const MANY_PROCESSED: u64 = 1 << 47;
     pub const UP_END_INFLIGHT: u64 = 1 << 48;
+    pub const CHILD_PANIC: u64 = 1 << 49; // a child's poll panicked and the caller went on using the subject
 }
 
 pub struct World {
@@ -274,6 +279,8 @@ pub struct World {
     /// ordered adapters: every future below this id has been yielded
     pub scan_from: usize,
     pub epoch: u32,
+    /// a child panicked inside a poll: liveness is no longer demanded of the subject (safety still is)
+    pub lenient: bool,
     pub active: bool,
     /// 0 collection, 1 merge, 2 adapter, 3 join_all, 4 try_join_all
     pub class: u8,
@@ -336,6 +343,7 @@ impl World {
             parked: 0,
             scan_from: 0,
             epoch: 0,
+            lenient: false,
             active: false,
             class: 0,
         }
@@ -389,6 +397,7 @@ impl World {
             polled_in_call: false,
             pushed_seq: 0,
             epoch: 0,
+            panic_left: plan.panic_polls,
         });
         id
     }
